@@ -185,6 +185,20 @@ func Resume(
 		if err != nil {
 			return err
 		}
+
+		// The section must be wholly present. A write cut short (e.g. by a crash) leaves a
+		// length prefix and CID announcing more data than the file holds; indexing it would
+		// serve truncated bytes and leave a hole in the payload once writing resumes.
+		if remaining := int64(length) - int64(n); remaining > 0 {
+			cur, err := v1r.Seek(0, io.SeekCurrent)
+			if err != nil {
+				return err
+			}
+			var last [1]byte
+			if read, _ := v1r.ReadAt(last[:], cur+remaining-1); read != 1 {
+				return fmt.Errorf("truncated section at offset %d; cannot resume from file", sectionOffset)
+			}
+		}
 		idx.InsertNoReplace(c, uint64(sectionOffset))
 
 		// Seek to the next section by skipping the block.
